@@ -1168,6 +1168,15 @@ def check_logs(repo_liquid2: str) -> list[tuple[str, str]]:
     return bad
 
 
+_INTERNAL = re.compile(r"<bound method|<built-in|<function |iterator object|frozenset\(|<liquid2\.|<class 'liquid2"
+                       r"|<class 'abc|<method |<slot wrapper|<member '|<property object|RenderContext|StringIO")
+
+
+def internal_leak(o: tuple) -> bool:
+    """The repr of an engine-internal Python object (iterator, bound method, class ...) in the output."""
+    return o[0] == "ok" and bool(_INTERNAL.search(o[1]))
+
+
 def leaks(o: tuple) -> bool:
     return any(SENT in str(x) or SENT2 in str(x) for x in o[1:])
 
@@ -1243,6 +1252,15 @@ def _c_fres(fn: Any, parent: Any) -> str:
     return "(Ok (FOpaque 999))"
 
 
+PUBLIC_KEYS = {
+    "ForLoop": {"name", "length", "index", "index0", "rindex", "rindex0", "first", "last", "parentloop"},
+    "TableRow": {"length", "index", "index0", "rindex", "rindex0", "first", "last", "col", "col0",
+                 "col_first", "col_last", "row"},
+    "BlockDrop": {"super"},
+}
+DROP_FAILURES: list[str] = []
+
+
 def kernel_a_items(thorough: bool) -> list[dict[str, Any]]:
     import io
 
@@ -1255,8 +1273,16 @@ def kernel_a_items(thorough: bool) -> list[dict[str, Any]]:
                    | set(dir(BlockDrop)) | set(BlockDrop.__slots__) | set(EXTRA_NAMES))
     items: list[dict[str, Any]] = []
 
+    DROP_FAILURES.clear()
+
     def add(case: str, model: str, what: str, impl: str) -> None:
         items.append({"case": case, "model": model, "replay": {"what": what, "implementation": impl}})
+        # the property itself: an item answer only for a documented key, never an internal object
+        m = re.match(r"(ForLoop|TableRow|BlockDrop)\b.*\[('.*'|\".*\")\]$", what)
+        if m and impl.startswith("(Ok"):
+            key = eval(m.group(2))  # noqa: S307 - a repr() produced above
+            if key not in PUBLIC_KEYS[m.group(1)] or "FOpaque" in impl:
+                DROP_FAILURES.append(f"{what} answers {impl}")
 
     parent = object()
     lens = (1, 3) if not thorough else (1, 2, 3, 4, 7)
@@ -1320,6 +1346,40 @@ class _Super:
 
 
 _SUPER = _Super()
+
+
+def callable_programs(g: Gen) -> list[tuple[list, list[tuple[str, tuple]]]]:
+    """Data whose *items* are callables (an instance with __call__, a class):
+    no filter or path may call them."""
+    g.nid = 0
+    f1, f2, k = g.callable_obj(), g.callable_obj(), g.class_obj()
+    m = ("obj", {"id": 90, "kind": "mapping", "shape": "inst", "hg": True, "async": False, "liq": None,
+                 "items": [("f", f2), ("g", k)], "aitems": [], "seq": [], "str": "M#90",
+                 "attrs": [("secret", ("val", ("str", SENT)))]})
+    data = [("fn", ("dict", [("f", f1), ("g", k), ("n", ("int", 1))])), ("m", m),
+            ("l", ("list", [("dict", [("f", f1)]), m, ("dict", [("f", f2)])]))]
+    J = ("join", [("pos", ("str", ","))])
+    P = lambda root, *segs: ("path", root, [("s", x) for x in segs])  # noqa: E731
+    progs: list[list] = []
+    for root in ("fn", "m", "l"):
+        for key in ("f", "g"):
+            S = ("pos", ("str", key))
+            progs += [
+                [("out", (P(root), [("map", [S]), J]))],
+                [("out", (P(root), [("map", [("lam", ["x"], ("prim", P("x", key)))]), J]))],
+                [("out", (P(root, key), []))],
+                [("out", (P(root), [("where", [S]), ("map", [S]), J]))],
+                [("out", (P(root), [("find", [S]), ("map", [S]), J]))],
+                [("out", (P(root), [("has", [S])]))],
+                [("out", (P(root), [("uniq", [S]), ("size", [])]))],
+                [("out", (P(root), [("sum", [S])]))],
+                [("out", (P(root), [("compact", [S]), ("size", [])]))],
+                [("out", (P(root), [("sort", [S]), ("size", [])]))],
+                [("if", ("prim", P(root, key)), [("text", "T")], [("text", "E")])],
+                [("for", "x", P(root), [("out", (P("x", key), [])), ("out", (("path", "x", [("i", 1)]), [])), ("text", ";")], [])],
+                [("out", (P(root, key), [("default", [("pos", ("str", "D"))])]))],
+            ]
+    return [(p, data) for p in progs]
 
 
 def sweep_programs() -> list[tuple[list, list[tuple[str, tuple]]]]:
@@ -1535,6 +1595,8 @@ def main(chk: C.Check, build: C.Build) -> None:
         rp = {"source": src, "data": data, "env": kw, "implementation": out, "how": "harness/c05.py run_impl"}
         if leaks(out):
             report("secret-in-output", f"an attribute value appears in the {'output' if out[0] == 'ok' else 'error message'}: {out[1:]!r:.200}", rp)
+        if internal_leak(out):
+            report("engine-internal-in-output", f"the output shows a Python-internal object: {out[1]!r:.200}", rp)
         for sig, what in check_logs(pkg):
             report(sig, what, rp)
         if names is not None and touched:
@@ -1560,10 +1622,12 @@ def main(chk: C.Check, build: C.Build) -> None:
 
     # -- 1. the getattr-by-name drops ------------------------------------------
     ka = kernel_a_items(thorough)
+    for f in DROP_FAILURES[:3]:
+        report("drop-getitem-answers-undocumented-key", f, {"how": "harness/c05.py kernel_a_items", "what": f})
 
     # -- 2. evaluator programs: correspondence + oracles ------------------------
     items: list[dict[str, Any]] = []
-    for prog, data in sweep_programs():
+    for prog, data in sweep_programs() + callable_programs(g):
         src = p_stmts(prog)
         out = oracle_run(src, data, names=prog_names(prog), differential=False)
         items.append(model_item(prog, data, False, out, src))
